@@ -512,7 +512,46 @@ def _syntax_transformers():
             n.body = self._blk(n.body)
             return n
 
-    return {"chained comparisons written as conjunctions": ChainSplit, "tuple results unpacked through a temporary (a = _u[0]; b = _u[1])": UnpackSplit,
+    class KwDict(ast.NodeTransformer):  # x = f(a, k=v, m=w)  ->  _kw1 = {'k': v, 'm': w}; x = f(a, **_kw1)   (plain values only)
+        def __init__(self):
+            self.k = 0
+
+        @staticmethod
+        def _plain(e):
+            while isinstance(e, ast.Attribute):
+                e = e.value
+            return isinstance(e, (ast.Name, ast.Constant))
+
+        def _blk(self, body):
+            out = []
+            for s_ in body:
+                if isinstance(s_, (ast.FunctionDef, ast.ClassDef)):
+                    s_.body = self._blk(s_.body)
+                    out.append(s_)
+                    continue
+                for fld in ("body", "orelse", "finalbody"):
+                    b = getattr(s_, fld, None)
+                    if isinstance(b, list) and b and isinstance(b[0], ast.stmt):
+                        setattr(s_, fld, self._blk(b))
+                for h in getattr(s_, "handlers", []) or []:
+                    h.body = self._blk(h.body)
+                c = s_.value if isinstance(s_, (ast.Assign, ast.Return, ast.Expr)) and isinstance(getattr(s_, "value", None), ast.Call) else None
+                if c is not None and len(c.keywords) >= 2 and all(k.arg is not None and self._plain(k.value) for k in c.keywords) \
+                        and all(self._plain(a) for a in c.args) and self._plain(c.func):
+                    self.k += 1
+                    d = f"_kw{self.k}"
+                    out.append(ast.copy_location(ast.Assign(targets=[ast.Name(id=d, ctx=ast.Store())],
+                                                            value=ast.Dict(keys=[ast.Constant(value=k.arg) for k in c.keywords], values=[k.value for k in c.keywords])), s_))
+                    c.keywords = [ast.keyword(arg=None, value=ast.Name(id=d, ctx=ast.Load()))]
+                out.append(s_)
+            return out
+
+        def visit_Module(self, n):
+            n.body = self._blk(n.body)
+            return n
+
+    return {"keyword arguments handed over through a dictionary (_kw = {'k': v, ..}; f(a, **_kw))": KwDict,
+            "chained comparisons written as conjunctions": ChainSplit, "tuple results unpacked through a temporary (a = _u[0]; b = _u[1])": UnpackSplit,
             "attribute prefixes read through a local alias (al_x = self.x)": AliasAttr,
             "extract-method: the first run of statements with branches / loops of every function moved into a helper": ExtractCompound,
             "extract-method: the first straight-line run of every function moved into a helper": ExtractBlocks,
